@@ -111,6 +111,7 @@ def main():
     ap.add_argument("--max", type=int, default=0)
     ap.add_argument("--seed", type=int, default=0)
     ap.add_argument("--out", default=os.path.join(HERE, "out", "mutation_score.jsonl"))
+    ap.add_argument("--rerun", default="", help="a previous .jsonl: only the mutants it lists as survived/undecided are run again")
     a = ap.parse_args()
     rnd = random.Random(a.seed)
     todo = []
@@ -119,6 +120,9 @@ def main():
         # mutate the docstring-free, annotation-keeping source as it is: ast.unparse drops comments only
         for desc, code in mutants_of(src):
             todo.append((f, desc, code))
+    if a.rerun:
+        keep = {(r["file"], r["mutant"]) for r in map(json.loads, open(a.rerun)) if r["verdict"] in ("survived", "undecided")}
+        todo = [t for t in todo if (t[0], t[1]) in keep]
     rnd.shuffle(todo)
     if a.max:
         todo = todo[: a.max]
